@@ -80,6 +80,11 @@ def cases(tier):
         n = len(dd.lattice(shape, tier, dd.TC_WIDE))
         for i in range(0, n, 1 if tier == "thorough" else 4):
             out.append({"shape": shape, "tc": "wide", "i": i, "split": "wd_we"})
+    # FITTED models: one object is fitted on a first building, predicts, is fitted on a second building and predicts the sweep - the curve
+    # it then shows must be the one of the coefficients it then publishes (to_dict)
+    for first, second in (("heating", "cooling"), ("cooling", "both"), ("both", "heating")):
+        for profile in ("current", "legacy"):
+            out.append({"shape": "fitted", "tc": "fitted", "i": 0, "first": first, "second": second, "profile": profile})
     # documents of the 2.0 format (from_2_0_dict): four model types x a small coefficient lattice
     out += [{"shape": "legacy2", "tc": "legacy2", "i": i} for i in range(len(legacy2_lattice()))]
     return out
@@ -222,6 +227,8 @@ def check_curve(c, tc, T, pred, heat, cool):
 def run_case(case):
     import opendsm.eemeter as em
 
+    if case["shape"] == "fitted":
+        return run_fitted_case(case, em)
     if case["shape"] == "legacy2":
         tc = LEGACY2_TC
         doc2, c = legacy2_lattice()[case["i"]]
@@ -295,6 +302,39 @@ def run_case(case):
     pr = p["predicted"].to_numpy(float)
     beh = [case["shape"] + ":" + case.get("key_order", "") + case.get("t_dtype", ""), bool(e.get("flat")), round(float(pr.min()), 6), round(float(pr.max()), 6), len(got)]
     return {"behaviour": beh, "violations": viol, "stats": {"points": int(len(T))}}
+
+
+def run_fitted_case(case, em):
+    from .. import datasets as ds
+
+    gen = {"heating": dict(hs=1.2, cs=0.0), "cooling": dict(hs=0.0, cs=1.5), "both": dict(hs=1.0, cs=1.3)}
+    mk = (lambda: em.DailyModel(model="legacy")) if case["profile"] == "legacy" else (lambda: em.DailyModel())
+    m = mk()
+
+    def data(kind, seed):
+        fr = ds.daily_frame(start="2021-01-01", days=365, tz="America/Chicago", wseed=seed, seed=seed, noise=0.01, base=20.0 + seed, **gen[kind])
+        return em.DailyBaselineData(fr, is_electricity_data=True)
+
+    sweepT = np.round(np.arange(-20.0, 120.0001, 0.5), 2)
+    idx = pd.date_range("2019-01-01", periods=len(sweepT), freq="D", tz="America/Chicago")
+    rep = em.DailyReportingData(pd.DataFrame({"temperature": sweepT}, index=idx), is_electricity_data=True)
+    m.fit(data(case["first"], 1), ignore_disqualification=True)
+    m.predict(rep, ignore_disqualification=True)
+    m.fit(data(case["second"], 2), ignore_disqualification=True)
+    doc = m.to_dict()
+    if list(doc["submodels"]) != ["fw-su_sh_wi"]:
+        return {"rejected": f"the second fit chose a split ({list(doc['submodels'])}); the curve clauses are applied to unsplit fits"}
+    sub = doc["submodels"]["fw-su_sh_wi"]
+    c = {k: (v.value if hasattr(v, "value") else v) for k, v in sub["coefficients"].items()}
+    tc = sub["temperature_constraints"]
+    p = m.predict(rep, ignore_disqualification=True)
+    got = check_curve(c, tc, sweepT, p["predicted"].to_numpy(float), p["heating_load"].to_numpy(float), p["cooling_load"].to_numpy(float))
+    viol = [{"clause": clause, "key": {"shape": c["model_type"], "model": "fitted_twice", "profile": case["profile"]},
+             "detail": f"{detail} | object fitted on a {case['first']} building, used, fitted on a {case['second']} building; published coefficients {c}"}
+            for clause, detail in got]
+    pr = p["predicted"].to_numpy(float)
+    return {"behaviour": ["fitted:" + c["model_type"], round(float(pr.min()), 4), round(float(pr.max()), 4), len(got)], "violations": viol,
+            "stats": {"points": int(len(sweepT))}}
 
 
 def run_split_case(case, em, c, tc, T):
